@@ -4,6 +4,7 @@ package c09
 import (
 	"context"
 	"fmt"
+	"math"
 	"sync/atomic"
 	"testing"
 	"time"
@@ -82,12 +83,16 @@ func model(adds []time.Duration, initial, max time.Duration, cap int) [][]time.D
 			return
 		}
 		if s.cur < max {
-			s.cur *= 2
-			if s.cur > max {
+			if s.cur > max/2 {
 				s.cur = max
+			} else {
+				s.cur *= 2
 			}
 		}
 		s.end = t + s.cur
+		if s.end < t {
+			s.end = math.MaxInt64 // beyond the end of time: the window stays open
+		}
 		rec(i+1, s)
 	}
 	rec(0, st{cur: initial})
@@ -116,6 +121,12 @@ func body(s *simrt.Sim, tier string) {
 	capN := s.Choose(5, "cap") // 0 = unset
 	settled := s.Choose(5, "settled") < 2
 	bursts := settled && s.Choose(2, "bursts") == 0 // settled mode with bursts: necessary conditions instead of the exact timeline
+	// "no upper bound": MaxDelay is the largest Duration, and a long busy period doubles the window until it
+	// cannot double any more (InitialDelay <= MaxDelay holds for every such pair)
+	unbounded := settled && !bursts && s.Choose(12, "unbounded") == 0
+	if unbounded {
+		max = []time.Duration{math.MaxInt64, math.MaxInt64 / 2, 1<<62 + 1}[s.Choose(3, "unbounded.max")]
+	}
 	palette := []time.Duration{initial / 4, initial / 2, initial - time.Millisecond, initial, initial + time.Millisecond, 2 * initial, 2*initial + time.Millisecond, 5 * initial}
 
 	opts := ratelimiting.OptionsCoalescing{InitialDelay: &initial, MaxDelay: &max}
@@ -143,7 +154,7 @@ func body(s *simrt.Sim, tier string) {
 		var l []aop
 		// a marathon: one busy period of some seventy Adds, each inside the window the previous one opened
 		// (the window must double up to the maximum and then stay there, however long events keep arriving)
-		marathon := settled && !bursts && s.Choose(12, "marathon") == 0
+		marathon := settled && !bursts && (s.Choose(12, "marathon") == 0 || unbounded)
 		if marathon {
 			n = 0
 			for k := 0; k < 66+s.Choose(8, "marathonlen"); k++ {
@@ -310,12 +321,19 @@ func body(s *simrt.Sim, tier string) {
 	}
 	if !racing {
 		// settle with the limiter still running: every window ends
-		s.Sleep(2*max + 50*time.Millisecond)
+		if unbounded {
+			s.Sleep(time.Minute) // the last window is open for the next centuries
+		} else {
+			s.Sleep(2*max + 50*time.Millisecond)
+		}
 		if el := time.Since(start); stallEnd > 0 && el < stallEnd+50*time.Millisecond {
 			s.Sleep(stallEnd + 50*time.Millisecond - el) // ... and the consumer reads again
 		}
 		// no Add lost
 		for i, a := range adds {
+			if unbounded {
+				break // (the exact timeline below says which signals are due by now)
+			}
 			covered := false
 			for _, g := range sigs {
 				if g.stamp > a.inv {
@@ -394,7 +412,18 @@ func body(s *simrt.Sim, tier string) {
 			}
 			ok := false
 			all := model(at, initial, max, capN)
+			elapsed := time.Since(start)
 			for _, want := range all {
+				if unbounded {
+					// only what is due by now
+					var w2 []time.Duration
+					for _, t := range want {
+						if t <= elapsed {
+							w2 = append(w2, t)
+						}
+					}
+					want = w2
+				}
 				if stallEnd > 0 {
 					// what falls into the consumer's stall is received at its end
 					w2 := append([]time.Duration(nil), want...)
